@@ -257,9 +257,7 @@ func (d *drv) siblingStream() {
 			a := b.Arte()
 			jset(a.DIDDoc, jpath{"didDocument", "verificationMethod", 0, "global", "proof", "siblings"}, clone(sibs))
 			full := &Arte{Kind: a.Kind, Cred: cloneMap(a.Cred), DIDDoc: cloneMap(a.DIDDoc), Status: cloneMap(a.Status)}
-			if o := decodeInto("DIDDocument", mustJSON(asMap(a.DIDDoc["didDocument"]))); o.Class != "panic" {
-				d.verifyCase(a, verifyInput{Stream: "verify", Arte: full}, true)
-			}
+			d.verifyCase(a, verifyInput{Stream: "verify", Arte: full}, true)
 		}
 		// node_aux shapes (88617d1)
 		for _, aux := range []any{map[string]any{}, map[string]any{"key": "1"}, map[string]any{"value": "1"}, map[string]any{"key": nil, "value": nil}, map[string]any{"key": "1", "value": "2"}} {
@@ -563,7 +561,7 @@ func (d *drv) documentStream() ([]*rdfCase, error) {
 		switch {
 		case jsonGoldPanic:
 			// the JSON-LD processor itself does not complete: outside the property's quantifier
-			d.rep.Count("document:json-gold-panic (not claimed)")
+			d.rep.Count("observation:c12-jsongold-panic-" + slug(o.Site) + " (json-gold itself does not complete: not claimed)")
 			d.rep.Notes = append(d.rep.Notes, fmt.Sprintf("json-gold panics on %q at %s: %s (the property quantifies over documents on which the JSON-LD processor completes)", c.why, o.Site, o.Msg))
 		case o.Class == "hang" && d.normalizeSlow(c.doc):
 			// json-gold's URDNA2015 alone needs longer than the watchdog (cubic in the nesting depth)
@@ -575,7 +573,7 @@ func (d *drv) documentStream() ([]*rdfCase, error) {
 			d.rep.Fail("c12-merklizejsonld-memory", fmt.Sprintf("MerklizeJSONLD allocated %d bytes on a %d-byte document (%s)", o.Alloc, len(c.doc), c.why), input)
 		}
 		// model side: entries_from_rdf on the dataset json-gold produces, then the tail
-		if len(c.doc) > 100000 || jsonGoldPanic || strings.HasPrefix(c.why, "deep-") {
+		if len(c.doc) > 2500 || jsonGoldPanic || o.Class == "hang" {
 			continue
 		}
 		var ds *ld.RDFDataset
@@ -731,6 +729,20 @@ func (d *drv) hashValueStream() {
 	}
 }
 
+// recHasher is PoseidonHasher with the primitive poseidon calls recorded (same guard
+// as merklize.PoseidonHasher.HashBytes); used for a second, recording run only.
+type recHasher struct{ p *primRec }
+
+func (r recHasher) Hash(in []*big.Int) (*big.Int, error) { return r.p.Hash(in) }
+func (r recHasher) HashBytes(msg []byte) (*big.Int, error) {
+	z, err := r.p.Bytes(string(msg))
+	if err == nil && z == nil {
+		return nil, fmt.Errorf("empty message")
+	}
+	return z, err
+}
+func (r recHasher) Prime() *big.Int { return merklize.PoseidonHasher{}.Prime() }
+
 func (d *drv) hashValueCase(dt string, v any, desc string) {
 	var z *big.Int
 	o := guard(watchdog, func() error {
@@ -756,7 +768,9 @@ func (d *drv) hashValueCase(dt string, v any, desc string) {
 			d.rep.Fail("c12-hashvalue-out-of-field", "HashValue returned a value outside the field", input)
 		}
 	}
-	// model side: only the kinds and lexical forms the value model covers
+	// model side: only the kinds and lexical forms the value model covers; the primitive
+	// calls are recorded by a second run through a recording hasher
+	_ = guard(watchdog, func() error { _, err := merklize.HashValueWithHasher(recHasher{d.prims}, dt, v); return err })
 	var raw string
 	switch x := v.(type) {
 	case string:
@@ -769,6 +783,9 @@ func (d *drv) hashValueCase(dt string, v any, desc string) {
 		_, _ = d.prims.Bytes(x)
 		raw = "S"
 	case bool:
+		if dt == ld.XSDDouble {
+			d.fr.AddStr(fmt.Sprint(x))
+		}
 		raw = "RGBool " + b2c(x)
 	case int, int8, int16, int32, int64:
 		var i64 int64
